@@ -6,7 +6,8 @@ From Coq Require Import NArith List Bool.
 From Coq Require String.
 From Coq Require Import Sorted.
 From I18n Require Import Lib.Outcome Model.Header Spec.HeaderRules Proofs.HeaderBase Proofs.HeaderComments Proofs.Header Proofs.Header2 Proofs.HeaderExample Model.Tags
-  Generated.HeaderFields Generated.SpecialDomains Generated.UcdHeader.
+  Generated.HeaderFields Generated.SpecialDomains Generated.UcdHeader
+  Model.HeaderPy Generated.HeaderSrc Proofs.HeaderSrc.
 Import ListNotations.
 Import String.StringSyntax.
 Local Open Scope N_scope.
@@ -328,3 +329,61 @@ Proof. vm_compute. repeat split; reflexivity. Qed.
 Example C15_ex_urlparse_raises :
   ex_check (ex_input false (lit "http://[foo")) = Ok [DInvalidReport (lit "http://[foo")].
 Proof. vm_compute. reflexivity. Qed.
+
+(* ------------------------------------------------------------------ *)
+(* Source tie (notes/SRC9.md): Generated/HeaderSrc.v is the statement-by-statement translation of the Python text of
+   gettext.parse_header and Checker.check_comments / check_headers / check_mime / check_project / check_translator in the
+   working tree (tools/gen/gen_header_src.py, regenerated on every run).  Each translated function EQUALS the model
+   function the theorems above are about, for all arguments and all oracles.  An edit of that code breaks these proofs. *)
+
+(* parse_header, consumed to the end, yields exactly the model's lines and does not raise (its assert is dead) *)
+Theorem C15_source_tie_parse_header : forall s, src_parse_header s = Ok (parse_header s).
+Proof. exact src_parse_header_eq. Qed.
+Print Assumptions C15_source_tie_parse_header.
+
+Theorem C15_source_tie_check_comments : forall O template comment,
+  src_check_comments O template comment = check_comments O template comment.
+Proof. exact src_check_comments_eq. Qed.
+Print Assumptions C15_source_tie_check_comments.
+
+(* `parse` stands for gettext.parse_header (previous theorem); the result is (ctx.metadata, tags) *)
+Theorem C15_source_tie_check_headers : forall O known dedicated template es,
+  src_check_headers O known dedicated template parse_header es = check_headers O known dedicated template es.
+Proof. exact src_check_headers_eq. Qed.
+Print Assumptions C15_source_tie_check_headers.
+
+(* the charset part of check_mime (try / except / else on encinfo) is not translated: it is the argument charset_step,
+   instantiated with the model's reading of it, which is literally cut out of content_type_diags (second theorem) *)
+Theorem C15_source_tie_check_mime : forall O template fs,
+  src_check_mime O template (charset_part O template) fs = check_mime O template fs.
+Proof. exact src_check_mime_eq. Qed.
+Print Assumptions C15_source_tie_check_mime.
+Theorem C15_source_tie_charset_part : forall O template ct,
+  content_type_diags O template ct =
+  match content_type_match O ct with
+  | Some m => fst (charset_part O template ct (snd m))
+              ++ (if negb (fst m) then [DInvalidContentType ct (snd (charset_part O template ct (snd m)))] else [])
+  | None => [DInvalidContentType ct None]
+  end.
+Proof. exact content_type_diags_charset_part. Qed.
+Print Assumptions C15_source_tie_charset_part.
+
+Theorem C15_source_tie_check_project : forall O eos so fs,
+  src_check_project O eos so fs = check_project O eos so fs.
+Proof. exact src_check_project_eq. Qed.
+Print Assumptions C15_source_tie_check_project.
+
+Theorem C15_source_tie_check_translator : forall O eos so template fs,
+  src_check_translator O eos so template fs = check_translator O eos so template fs.
+Proof. exact src_check_translator_eq. Qed.
+Print Assumptions C15_source_tie_check_translator.
+
+(* the translated functions compute (non-vacuity): a field line, a stray line, a duplicate; a dot-less address *)
+Example C15_src_ex :
+  src_parse_header (lit "A: 1" ++ nl ++ lit "stray" ++ nl) = Ok [HField (lit "A") (lit "1"); HStray (lit "stray")] /\
+  snd (src_check_headers ex_oracles header_fields dedicated_fields false parse_header
+         [ex_entry (lit "user@localhost")]) = [] /\
+  src_check_project ex_oracles special_exact_or_sub special_sub_only
+    [(lit "Project-Id-Version", lit "gizmo"); (lit "Report-Msgid-Bugs-To", lit "user@localhost")]
+  = Ok [DNoVersion (lit "gizmo"); DInvalidReport (lit "user@localhost")].
+Proof. vm_compute. repeat split; reflexivity. Qed.
